@@ -5,5 +5,5 @@ prop=$1; patch=$(readlink -f $2); shift 2
 d=$(mktemp -d /tmp/h3seed.XXXXXX)
 mkdir -p $d/src && cp -r /repo/src/h3lib $d/src/ && cp /repo/VERSION $d/
 (cd $d && patch -s -p1 < $patch) || { echo "PATCH FAILED"; rm -rf $d; exit 3; }
-VERIF_REPO=$d VERIF_NO_EVIDENCE=1 /verif/check $prop "$@" 2>&1 | grep -E "VIOLATION|OK property|KNOWN|note:|^   " | head -8 | cut -c1-260
+VERIF_REPO=$d VERIF_NO_EVIDENCE=1 /verif/check $prop "$@" 2>&1 | grep -E "VIOLATION|OK property|KNOWN|note:|^   " | head -60 | cut -c1-260
 rm -rf $d
